@@ -18,6 +18,14 @@
 // `if <named error result> != nil { … }` and Open can return an error only before its first `go` statement (errorOnlyDefer),
 // in which case they stay `opener 0`.
 //
+// Rename-stability (this tool is syntactic): a PRIVATE function of package simpledb that the theorems name is found by its
+// name or, when the name is gone, as the one unexported function with the same receiver and the signature recorded in
+// `privateFns`, and is analysed under the recorded name (`restorePrivateNames`); the hand-off facts `flushSends` /
+// `swapMemstoreBody` are printed with the receiver, parameters and locals written r, p0 …, v0 … (`alphaString`), and
+// `dbLockShared` follows the lock VARIABLE through NewSimpleDB / NewSSTableManager (`lockShared`) — so renaming a local, a
+// parameter, a receiver or a private helper does not change what the theorems quote.  The `pos` column of an access
+// (file:line) is information only.
+//
 // Purity.lean: for the documented thread-safe read paths of recordio.MMapReader, sstables.SSTableReader,
 // SliceKeyIndex and SuperSSTableReader: every assignment to a receiver field or package-level variable on the
 // path (expected: none; Scan is listed as the known exception).
@@ -46,7 +54,7 @@ const (
 	dbW
 	mgrR
 	mgrW
-	guard // pseudo lock: "the open/closed checks of a client method have been passed under the db lock"
+	guard    // pseudo lock: "the open/closed checks of a client method have been passed under the db lock"
 	allLocks = dbR | dbW | mgrR | mgrW | guard
 )
 
@@ -862,6 +870,9 @@ func main() {
 
 func genAccess(repo string) string {
 	files := parseDir(filepath.Join(repo, "simpledb"), nil)
+	for _, note := range restorePrivateNames(files) {
+		fmt.Fprintln(os.Stderr, "lockfacts: note: private function renamed:", note)
+	}
 	// pass 1: structs
 	var structDecls []*ast.TypeSpec
 	for _, f := range files {
@@ -1317,11 +1328,11 @@ func genAccess(repo string) string {
 		ast.Inspect(funcs[n].decl.Body, func(nd ast.Node) bool {
 			if s, ok := nd.(*ast.SendStmt); ok {
 				if sel, ok := s.Chan.(*ast.SelectorExpr); ok && sel.Sel.Name == "storeFlushChannel" {
-					payload := exprString(s.Value)
+					payload := alphaString(funcs[n].decl, s.Value)
 					if cl, ok := s.Value.(*ast.CompositeLit); ok {
 						for _, el := range cl.Elts {
 							if kv, ok := el.(*ast.KeyValueExpr); ok && exprString(kv.Key) == "memStore" {
-								payload = exprString(kv.Value)
+								payload = alphaString(funcs[n].decl, kv.Value)
 							}
 						}
 					}
@@ -1331,26 +1342,24 @@ func genAccess(repo string) string {
 			return true
 		})
 	}
-	sb.WriteString("/-- every send on the flush channel: (function, the memstore it hands over) -/\n")
+	sb.WriteString("/-- every send on the flush channel: (function, the memstore it hands over; receiver r, parameters p0 …, locals v0 …) -/\n")
 	fmt.Fprintf(&sb, "def flushSends : List (String × String) := [%s]\n\n", strings.Join(sends, ", "))
 	body := ""
 	if f, ok := funcs["swapMemstore"]; ok {
-		body = exprString(f.decl.Body)
+		body = alphaString(f.decl, f.decl.Body)
 	}
-	sb.WriteString("/-- the body of swapMemstore, whitespace-normalised -/\n")
+	sb.WriteString("/-- the body of swapMemstore, whitespace-normalised, parameters written p0 …, locals v0 … (order of declaration) -/\n")
 	fmt.Fprintf(&sb, "def swapMemstoreBody : String := %s\n\n", leanStr(body))
 
 	// the db lock of the manager is the db's own lock
-	shared := false
+	var newDB, newMgr *ast.FuncDecl
 	if f, ok := funcs["NewSimpleDB"]; ok {
-		src := exprString(f.decl.Body)
-		shared = strings.Contains(src, "rwLock := &sync.RWMutex{}") && strings.Contains(src, "NewSSTableManager(cmp, rwLock, basePath)") &&
-			strings.Contains(src, "rwLock: rwLock")
+		newDB = f.decl
 	}
-	if f, ok := funcs["NewSSTableManager"]; ok && shared {
-		p := f.decl.Type.Params.List
-		shared = len(p) >= 2 && len(p[1].Names) == 1 && strings.Contains(exprString(f.decl.Body), "databaseLock: "+p[1].Names[0].Name)
+	if f, ok := funcs["NewSSTableManager"]; ok {
+		newMgr = f.decl
 	}
+	shared := lockShared(newDB, newMgr)
 	// channels of the DB object: field ← make expression (capacity matters: the flush hand-off must be unbuffered)
 	var chans []string
 	if f, ok := funcs["NewSimpleDB"]; ok {
@@ -1395,6 +1404,248 @@ func genAccess(repo string) string {
 	fmt.Fprintf(&sb, "def dbLockShared : Bool := %v\n\n", shared)
 	sb.WriteString("end SST.Generated\n")
 	return sb.String()
+}
+
+// ---------------------------------------------------------------------------------------------------------
+// rename-stability (syntactic: this tool has no type information)
+
+// The PRIVATE functions of package simpledb that this tool, Spec/Access.lean, C05.lean or C18.lean name, with their signature
+// as printed from the source without parameter names ("Recv|func(T…) R").  A listed private function that is not found by
+// name is looked up as the ONE unexported function with the same receiver type and this signature whose own name is not
+// listed here; it is then analysed UNDER THE LISTED NAME (declaration and all call sites renamed in the syntax tree before
+// anything else looks at it), so that renaming a private helper changes nothing.  Exported functions: by name only.
+var privateFns = map[string]string{
+	"swapMemstore":                                "|func(*DB) *memstore.MemStoreI",
+	"flushMemstoreContinuously":                   "|func(*DB)",
+	"backgroundCompaction":                        "|func(*DB)",
+	"executeFlush":                                "|func(*DB, memStoreFlushAction) error",
+	"executeCompaction":                           "|func(*DB) (*dbproto.CompactionMetadata, error)",
+	"saveCompactionMetadata":                      "|func(string, *dbproto.CompactionMetadata) error",
+	"DB.rotateWalAndFlushMemstore":                "DB|func() error",
+	"DB.repairCompactions":                        "DB|func() error",
+	"DB.reconstructSSTables":                      "DB|func() error",
+	"DB.replayAndSetupWriteAheadLog":              "DB|func() error",
+	"SSTableManager.clearReaders":                 "SSTableManager|func()",
+	"SSTableManager.currentSSTable":               "SSTableManager|func() sstables.SSTableReaderI",
+	"SSTableManager.candidateTablesForCompaction": "SSTableManager|func(uint64, float32) compactionAction",
+	"SSTableManager.addReader":                    "SSTableManager|func(sstables.SSTableReaderI)",
+	"SSTableManager.reflectCompactionResult":      "SSTableManager|func(*dbproto.CompactionMetadata) error",
+}
+
+func syntacticSig(fd *ast.FuncDecl) string {
+	list := func(fl *ast.FieldList) []string {
+		var out []string
+		if fl == nil {
+			return out
+		}
+		for _, f := range fl.List {
+			n := len(f.Names)
+			if n == 0 {
+				n = 1
+			}
+			for i := 0; i < n; i++ {
+				out = append(out, exprString(f.Type))
+			}
+		}
+		return out
+	}
+	s := recvName(fd) + "|func(" + strings.Join(list(fd.Type.Params), ", ") + ")"
+	switch r := list(fd.Type.Results); len(r) {
+	case 0:
+	case 1:
+		s += " " + r[0]
+	default:
+		s += " (" + strings.Join(r, ", ") + ")"
+	}
+	return s
+}
+
+func restorePrivateNames(files []*ast.File) (notes []string) {
+	decls := map[string]*ast.FuncDecl{}
+	var all []*ast.FuncDecl
+	for _, f := range files {
+		for _, d := range f.Decls {
+			if fd, ok := d.(*ast.FuncDecl); ok {
+				n := fd.Name.Name
+				if r := recvName(fd); r != "" {
+					n = r + "." + n
+				}
+				decls[n] = fd
+				all = append(all, fd)
+			}
+		}
+	}
+	var keys []string
+	for k := range privateFns {
+		keys = append(keys, k)
+	}
+	sort.Strings(keys)
+	for _, want := range keys {
+		if decls[want] != nil {
+			continue
+		}
+		var cands []*ast.FuncDecl
+		for _, fd := range all {
+			n := fd.Name.Name
+			if r := recvName(fd); r != "" {
+				n = r + "." + n
+			}
+			if ast.IsExported(fd.Name.Name) || privateFns[n] != "" {
+				continue
+			}
+			if syntacticSig(fd) == privateFns[want] {
+				cands = append(cands, fd)
+			}
+		}
+		if len(cands) != 1 {
+			continue
+		}
+		fd := cands[0]
+		old, isMethod := fd.Name.Name, fd.Recv != nil
+		short := want
+		if i := strings.LastIndex(want, "."); i >= 0 {
+			short = want[i+1:]
+		}
+		notes = append(notes, want+" is now called "+old)
+		for _, f := range files {
+			ast.Inspect(f, func(n ast.Node) bool {
+				switch x := n.(type) {
+				case *ast.SelectorExpr:
+					if isMethod && x.Sel.Name == old {
+						x.Sel.Name = short
+					}
+				case *ast.Ident:
+					if !isMethod && x.Name == old && (x.Obj == nil || x.Obj.Kind == ast.Fun) {
+						x.Name = short
+					}
+				}
+				return true
+			})
+		}
+		fd.Name.Name = short
+	}
+	return notes
+}
+
+// alphaString: the printed node with the receiver, the parameters and the local variables of the enclosing function
+// replaced by r, p0, p1, …, v0, v1, … (locals in order of declaration) — independent of what they are called
+func alphaString(fd *ast.FuncDecl, n ast.Node) string {
+	names := map[*ast.Object]string{}
+	if fd.Recv != nil {
+		for _, f := range fd.Recv.List {
+			for _, id := range f.Names {
+				if id.Obj != nil {
+					names[id.Obj] = "r"
+				}
+			}
+		}
+	}
+	k := 0
+	if fd.Type.Params != nil {
+		for _, f := range fd.Type.Params.List {
+			for _, id := range f.Names {
+				if id.Obj != nil {
+					names[id.Obj] = fmt.Sprintf("p%d", k)
+				}
+				k++
+			}
+		}
+	}
+	var locals []*ast.Object
+	seen := map[*ast.Object]bool{}
+	if fd.Body != nil {
+		ast.Inspect(fd.Body, func(x ast.Node) bool {
+			if id, ok := x.(*ast.Ident); ok && id.Obj != nil && id.Obj.Kind == ast.Var && !seen[id.Obj] {
+				if _, known := names[id.Obj]; !known && id.Obj.Pos() >= fd.Body.Pos() && id.Obj.Pos() < fd.Body.End() {
+					seen[id.Obj] = true
+					locals = append(locals, id.Obj)
+				}
+			}
+			return true
+		})
+	}
+	sort.Slice(locals, func(i, j int) bool { return locals[i].Pos() < locals[j].Pos() })
+	for i, o := range locals {
+		names[o] = fmt.Sprintf("v%d", i)
+	}
+	var touched []*ast.Ident
+	var old []string
+	ast.Inspect(n, func(x ast.Node) bool {
+		if id, ok := x.(*ast.Ident); ok && id.Obj != nil {
+			if nm, ok := names[id.Obj]; ok {
+				touched = append(touched, id)
+				old = append(old, id.Name)
+				id.Name = nm
+			}
+		}
+		return true
+	})
+	s := exprString(n)
+	for i, id := range touched {
+		id.Name = old[i]
+	}
+	return s
+}
+
+// is the db lock of the manager the db's own lock?  NewSimpleDB makes ONE `&sync.RWMutex{}`, hands that very variable to
+// NewSSTableManager as its second argument and stores it as the DB's `rwLock`; NewSSTableManager stores its second
+// parameter as `databaseLock` — whatever the variables are called
+func lockShared(newDB, newMgr *ast.FuncDecl) bool {
+	if newDB == nil || newMgr == nil || newDB.Body == nil || newMgr.Body == nil {
+		return false
+	}
+	var lock *ast.Object
+	ast.Inspect(newDB.Body, func(n ast.Node) bool {
+		if as, ok := n.(*ast.AssignStmt); ok && len(as.Lhs) == 1 && len(as.Rhs) == 1 {
+			if id, ok := as.Lhs[0].(*ast.Ident); ok && id.Obj != nil && exprString(as.Rhs[0]) == "&sync.RWMutex{}" {
+				lock = id.Obj
+			}
+		}
+		return true
+	})
+	if lock == nil {
+		return false
+	}
+	isLock := func(e ast.Expr) bool {
+		id, ok := e.(*ast.Ident)
+		return ok && id.Obj == lock
+	}
+	passed, stored := false, false
+	ast.Inspect(newDB.Body, func(n ast.Node) bool {
+		switch x := n.(type) {
+		case *ast.CallExpr:
+			if fn, ok := x.Fun.(*ast.Ident); ok && fn.Name == "NewSSTableManager" && len(x.Args) >= 2 && isLock(x.Args[1]) {
+				passed = true
+			}
+		case *ast.KeyValueExpr:
+			if k, ok := x.Key.(*ast.Ident); ok && k.Name == "rwLock" && isLock(x.Value) {
+				stored = true
+			}
+		}
+		return true
+	})
+	if !passed || !stored {
+		return false
+	}
+	var params []*ast.Ident
+	for _, f := range newMgr.Type.Params.List {
+		params = append(params, f.Names...)
+	}
+	if len(params) < 2 || params[1].Obj == nil {
+		return false
+	}
+	wired := false
+	ast.Inspect(newMgr.Body, func(n ast.Node) bool {
+		if kv, ok := n.(*ast.KeyValueExpr); ok {
+			if k, ok := kv.Key.(*ast.Ident); ok && k.Name == "databaseLock" {
+				if v, ok := kv.Value.(*ast.Ident); ok && v.Obj == params[1].Obj {
+					wired = true
+				}
+			}
+		}
+		return true
+	})
+	return wired
 }
 
 // ---------------------------------------------------------------------------------------------------------
